@@ -129,7 +129,10 @@ class Env(e1run.E1Env):
 
         def run():
             self.tags[threading.get_ident()] = tag
-            return "".join(e1run.normalise(c.render(render_dependencies=False)) for c in classes + classes[:1])
+            # hits and misses through a small cache: a hit on the entry that is currently least recently used
+            # (c0 after c0,c1) is the window in which another task's miss evicts it
+            order = [0, 1, 0, 2, 0, 1]
+            return "".join(e1run.normalise(classes[i % len(classes)].render(render_dependencies=False)) for i in order)
 
         return run, classes
 
